@@ -1041,29 +1041,26 @@ class _Builder:
                     self.names.add(cand)
                     self.classes.add("prefix-names")
                     return cand
-        for _ in range(200):
-            parts = [ch.choice(_UP), ch.choice(_UP)]
-            if ch.chance(0.25):
-                parts.append(str(ch.integer(2, 9)))
-            n = "_".join(parts)
-            if n not in self.names and parts[0] != parts[1]:
-                self.names.add(n)
-                return n
-        k = len(self.names)
-        n = f"DEF_{k}"
+        a = ch.choice(_UP)
+        n = a + "_" + ch.choice([w for w in _UP if w != a])
+        if ch.chance(0.25):
+            n += "_" + str(ch.integer(2, 9))
+        base, k = n, 2
+        while n in self.names:  # deterministic way out, so that shrunk (all-minimal) choice sequences stay cheap
+            n = f"{base}_{k}"
+            k += 1
         self.names.add(n)
         return n
 
     def fresh_field(self, used: Set[str]) -> str:
         ch = self.ch
-        for _ in range(100):
-            n = ch.choice(_LOW)
-            if ch.chance(0.5):
-                n += "_" + ch.choice(_SUFFIX)
-            if n not in used and n not in RESERVED_FIELD_NAMES:
-                used.add(n)
-                return n
-        n = f"f{len(used)}"
+        n = ch.choice(_LOW)
+        if ch.chance(0.5):
+            n += "_" + ch.choice(_SUFFIX)
+        base, k = n, 2
+        while n in used or n in RESERVED_FIELD_NAMES:
+            n = f"{base}{k}"
+            k += 1
         used.add(n)
         return n
 
@@ -1579,23 +1576,23 @@ class _Ctx:
                 self.host_ids.add(d.value)
 
     def fresh_name(self) -> str:
-        for _ in range(300):
-            a, b = self.ch.choice(_UP), self.ch.choice(_UP)
-            n = f"{a}_{b}" + (f"_{self.ch.integer(2, 9)}" if self.ch.chance(0.3) else "")
-            if a != b and n not in self.names:
-                self.names.add(n)
-                return n
-        n = f"EXTRA_{len(self.names)}"
+        a = self.ch.choice(_UP)
+        n = a + "_" + self.ch.choice([w for w in _UP if w != a])
+        if self.ch.chance(0.3):
+            n += "_" + str(self.ch.integer(2, 9))
+        base, k = n, 2
+        while n in self.names:
+            n = f"{base}_{k}"
+            k += 1
         self.names.add(n)
         return n
 
     def fresh_field(self, used: Set[str]) -> str:
-        for _ in range(200):
-            n = self.ch.choice(_LOW) + ("_" + self.ch.choice(_SUFFIX) if self.ch.chance(0.6) else "")
-            if n not in used and n not in RESERVED_FIELD_NAMES:
-                used.add(n)
-                return n
-        n = f"g{len(used)}"
+        n = self.ch.choice(_LOW) + ("_" + self.ch.choice(_SUFFIX) if self.ch.chance(0.6) else "")
+        base, k = n, 2
+        while n in used or n in RESERVED_FIELD_NAMES:
+            n = f"{base}{k}"
+            k += 1
         used.add(n)
         return n
 
